@@ -9,7 +9,7 @@ namespace Smrt
 section
 variable {α : Type} [Add α] [Sub α] [Mul α] [Div α] [Neg α] [OfNat α 0] [OfScientific α] [NatCast α] [Transc α]
 
-/-- π as the double closest to it (numpy's `np.pi`) -/
+/-- π as the double closest to it (numpy's `np.pi`); the drivers pass this value, the theorems pass `Real.pi` -/
 def piLit : α := (3.141592653589793 : α)
 
 /-- is entry `(p, q)` one of the four entries that are odd in the azimuth (only for 3 polarisations)? -/
@@ -20,23 +20,23 @@ def mirrored (N : Nat) (odd : Bool) (s : Nat → α) (k : Nat) : α :=
   if k ≤ N / 2 then s k else (if odd then - s (N - k) else s (N - k))
 
 /-- real part of the DFT bin `m` of a real sequence: `Σ_k x_k cos(2π m k / N)` -/
-def dftRe (N m : Nat) (x : Nat → α) : α :=
-  sumN N (fun k => x k * Transc.cos (2.0 * piLit * (m : α) * (k : α) / (N : α)))
+def dftRe (pi : α) (N m : Nat) (x : Nat → α) : α :=
+  sumN N (fun k => x k * Transc.cos (2.0 * pi * (m : α) * (k : α) / (N : α)))
 
 /-- imaginary part of the DFT bin `m`: `- Σ_k x_k sin(2π m k / N)` -/
-def dftIm (N m : Nat) (x : Nat → α) : α :=
-  - sumN N (fun k => x k * Transc.sin (2.0 * piLit * (m : α) * (k : α) / (N : α)))
+def dftIm (pi : α) (N m : Nat) (x : Nat → α) : α :=
+  - sumN N (fun k => x k * Transc.sin (2.0 * pi * (m : α) * (k : α) / (N : α)))
 
 /-- the coefficient `generic_ft_even_matrix` returns for entry `(p, q)` and mode `m`, given that entry's samples
     on `[0, π]`.  Even entries: cosine coefficient.  Odd entries: `Im·δ` for (V|H, U), `−Im·δ` for (U, V|H). -/
-def ftEvenCoef (npol N p q m : Nat) (s : Nat → α) : α :=
+def ftEvenCoef (pi : α) (npol N p q m : Nat) (s : Nat → α) : α :=
   let x := mirrored N (oddEntry npol p q) s
-  if m = 0 then dftRe N 0 x * (1.0 / (N : α))
+  if m = 0 then dftRe pi N 0 x * (1.0 / (N : α))
   else
     let δ : α := 2.0 / (N : α)
     if oddEntry npol p q then
-      (if q = 2 then dftIm N m x * δ else - dftIm N m x * δ)
-    else dftRe N m x * δ
+      (if q = 2 then dftIm pi N m x * δ else - dftIm pi N m x * δ)
+    else dftRe pi N m x * δ
 
 end
 end Smrt
